@@ -19,6 +19,14 @@ func use() {
 	_ = d.T{X: 1}
 }
 """
+TDTEST_SRC = """package q
+
+import "m/d"
+
+func helperInExcludedDir(p *d.T) {
+	p.X++
+}
+"""
 GEN_SRC = """package g
 
 import "m/d"
@@ -57,11 +65,11 @@ def probe():
         {"path": "m/d", "name": "d", "files": [{"name": "d/d.go", "src": gen_all.D_SRC}]},
         {"path": "m/p", "name": "p", "files": [{"name": "p/a.go", "src": src}, {"name": "p/a_test.go", "src": TEST_SRC}]},
         {"path": "m/w", "name": "w", "files": [{"name": "w/a.go", "src": src2}]},
-        {"path": "m/xtestdatax", "name": "q", "files": [{"name": "xtestdatax/q.go", "src": TD_SRC}]},
+        {"path": "m/xtestdatax", "name": "q", "files": [{"name": "xtestdatax/q.go", "src": TD_SRC}, {"name": "xtestdatax/q_test.go", "src": TDTEST_SRC}]},
         {"path": "m/zzgen", "name": "g", "files": [{"name": "zzgen/g.go", "src": GEN_SRC}]},
         {"path": "m/ig", "name": "ig", "files": [{"name": "ig/ig.go", "src": IGN_SRC}]},
     ]}
-    cls = {"w/a.go": "regular2", "p/a.go": "regular", "p/a_test.go": "test", "xtestdatax/q.go": "tdpath", "zzgen/g.go": "genpath", "ig/ig.go": "ignored"}
+    cls = {"w/a.go": "regular2", "p/a.go": "regular", "p/a_test.go": "test", "xtestdatax/q.go": "tdpath", "xtestdatax/q_test.go": "tdtest", "zzgen/g.go": "genpath", "ig/ig.go": "ignored"}
     return prog, cls
 
 
